@@ -726,3 +726,61 @@ def str_strip_affix(ctx, args, st):
             if not hit: yield s2, 'ret', NONE
             else: yield s2, 'ret', Some(s2.ref(StrV(s.chars[:at] if suffix else s.chars[len(p.chars):], 'str')))
     return g()
+
+
+@model(r'^(?:core::)?str::<impl str>::bytes$')
+def str_bytes(ctx, args, st):
+    """iterator over the UTF-8 bytes of a string (symbolic characters: length class forked, bytes are expressions)"""
+    from .iters import mk_list_iter
+    from .pctenc import utf8_bytes
+    s = str_of(st, args[0])
+    if s.facts is not None: raise Unsupported('bytes of an abstract string')
+    def g():
+        for s2, lens in fix_lengths(ctx.ex, st, s):
+            bs = []
+            for c, n in zip(s.chars, lens):
+                for b in utf8_bytes(c, n):
+                    bs.append(Int(z3.simplify(z3.Extract(7, 0, b)) if not isinstance(b, int) else z3.BitVecVal(b, 8), 'u8'))
+            yield s2, 'ret', mk_list_iter(bs)
+    return g()
+
+
+@model(r'^core::num::<impl u8>::(is_ascii_whitespace|is_ascii_digit|is_ascii_alphabetic|is_ascii_alphanumeric|is_ascii)$')
+def u8_ascii_pred(ctx, args, st):
+    v = args[0]
+    while isinstance(v, Ref): v = st.deref(v)
+    if not isinstance(v, Int): raise Unsupported(f'u8 predicate on {v!r}')
+    b = v.e
+    op = ctx.callee.rsplit('::', 1)[-1]
+    rng = lambda lo, hi: z3.And(z3.UGE(b, lo), z3.ULE(b, hi))
+    e = {'is_ascii_whitespace': z3.Or(b == 0x20, b == 0x09, b == 0x0A, b == 0x0C, b == 0x0D), 'is_ascii_digit': rng(48, 57),
+         'is_ascii_alphabetic': z3.Or(rng(65, 90), rng(97, 122)), 'is_ascii_alphanumeric': z3.Or(rng(48, 57), rng(65, 90), rng(97, 122)), 'is_ascii': z3.ULT(b, 128)}[op]
+    return ret(st, Bool(z3.simplify(e)))
+
+
+@model(r'^(?:core::)?str::<impl str>::(trim_matches|trim_start_matches|trim_end_matches|trim_left_matches|trim_right_matches)::<\{closure@.*\}>$')
+def str_trim_matches_closure(ctx, args, st):
+    """trim with a predicate closure: the real closure is called on each candidate character"""
+    s = str_of(st, args[0]); pred = args[1]
+    if s.facts is not None: raise Unsupported('trim_matches on an abstract string')
+    op = re.search(r'::(trim_\w+)::<', ctx.callee).group(1)
+    left = op in ('trim_matches', 'trim_start_matches', 'trim_left_matches'); right = op in ('trim_matches', 'trim_end_matches', 'trim_right_matches')
+    def holds(s_, c):
+        for s2, kind, val in ctx.ex.call_value(pred, [Char(c)], s_, ctx.depth + 1):
+            if kind != 'ret': raise Unsupported(f'trim predicate ended with {kind}')
+            b = val.concrete() if isinstance(val, Bool) else None
+            if b is not None: yield s2, b
+            else: yield from ctx.ex.fork_bool(s2, val.e)
+    def go_l(s_, a, b):
+        if not left or a >= b:
+            yield from go_r(s_, a, b); return
+        for s2, yes in holds(s_, s.chars[a]):
+            if yes: yield from go_l(s2, a + 1, b)
+            else: yield from go_r(s2, a, b)
+    def go_r(s_, a, b):
+        if not right or a >= b:
+            yield s_, 'ret', s_.ref(StrV(s.chars[a:b], 'str')); return
+        for s2, yes in holds(s_, s.chars[b - 1]):
+            if yes: yield from go_r(s2, a, b - 1)
+            else: yield s2, 'ret', s2.ref(StrV(s.chars[a:b], 'str'))
+    return go_l(st, 0, len(s.chars))
